@@ -99,7 +99,7 @@ pub fn check(c: &Case) -> Verdict {
     }
     classes.push(format!("base={}", if base == 0 { "0" } else if base < 128 { "1-byte" } else if base < 16512 { "2-byte" } else if base < 2_113_664 { "3-byte" } else { "4-byte" }));
     let sample = serde_json::json!({"coin": built.coin.cli(), "base": base, "blocks": n, "layouts": c.layouts.iter().map(|l| serde_json::json!({"files": l.numbers(), "placement": l.placement(n), "gaps": format!("{:?}", l.gaps), "backward_seeks": l.backward_seeks(n)})).collect::<Vec<_>>()});
-    Verdict::Pass(Pass { nontrivial, key: key_of(&c.layouts), classes, known: vec![], sub_evals: 1 + c.layouts.len() as u64, sample: Some(sample) })
+    Verdict::Pass(Pass { nontrivial, key: key_of(&c.layouts), classes, known: vec![], sub_evals: 1 + c.layouts.len() as u64, sample: Some(sample), extra_keys: vec![] })
 }
 
 fn run(eng: &Engine, a: &Args) {
